@@ -170,3 +170,84 @@ def parser_reps(ctx):
                 ctx.violation(key, f.loc(s), 'the parser\'s update for a normal match cannot be read off (%s)' % ex)
     if n == 0:
         ctx.anchor_missing('parser-side rotation of the repeat distances')
+
+
+# --------------------------------------------------------------------------- SLOT-TABLE-EXTENT
+
+@rule('SLOT-TABLE-EXTENT', ['C01'], floor=1)
+def slot_table_extent(ctx):
+    """The encoder's distance-slot price table has one entry per slot a distance can fall into. Distances are
+    coded minus one, so the largest value is `dict_size - 1`, and the table is indexed with `get_dist_slot(dist)`
+    (non-decreasing in dist; that is an assumption about get_dist_slot, stated here, not proved). The table size
+    must therefore be `get_dist_slot(e) + k` with e >= dict_size - 1 and k >= 1 (or a constant covering all 64
+    slots). `get_dist_slot(dict_size)` without the + 1 is one entry short whenever dict_size and dict_size - 1
+    share a slot, i.e. for every dictionary size that is not 2^n or 3*2^(n-1): a match in the topmost slot indexes
+    past the table."""
+    F = ctx.facts
+    fs = [f for f in F.fns if f.key == 'LZMAEncoder::new']
+    if not fs:
+        ctx.anchor_missing('LZMAEncoder::new')
+        return
+    f = fs[0]
+    prov = Prov(f)
+    key = 'LZMAEncoder::new:dist-slot-price-table-covers-the-topmost-slot'
+    size_exprs = []
+    for b in f.reachable:
+        for si, s in enumerate(f.blocks[b]['stmts']):
+            if s['k'] == 'assign' and s['rv']['r'] == 'agg':
+                names = s['rv'].get('field_names') or []
+                for i, o in enumerate(s['rv']['ops']):
+                    nm = names[i] if i < len(names) else None
+                    if nm and 'dist_slot_prices_size' in nm:
+                        size_exprs.append((b, prov.operand(o, 0, '%d:%d' % (b, si))))
+    if not size_exprs:
+        # fall back: the local named dist_slot_price_size
+        for i, l in enumerate(f.locals):
+            if (l.get('name') or '').startswith('dist_slot_price'):
+                for (bi, si, k, node) in f.whole_defs(i):
+                    if k == 'assign':
+                        size_exprs.append((bi, prov.rvalue(node['rv'], 0, '%d:%d' % (bi, si))))
+    if not size_exprs:
+        ctx.violation(key, f.loc(0), 'cannot find the size of the distance-slot price table (anchor lost, fail closed)')
+        return
+    b, e = size_exprs[0]
+    x = e
+    while x[0] == 'cast':
+        x = x[-1]
+    if x[0] == 'const' and isinstance(x[2], int):
+        if x[2] >= 64:
+            ctx.ok(key, f.loc(b), 'constant size %d covers all 64 slots' % x[2])
+        else:
+            ctx.violation(key, f.loc(b), 'constant table size %d is below the 64 distance slots' % x[2])
+        return
+    k = 0
+    if x[0] == 'field' and isinstance(x[1], tuple) and x[1][0] == 'bin' and x[1][1] == 'AddWithOverflow' and str(x[2]) == '0':
+        x = ('bin', 'Add', x[1][2], x[1][3])
+    if x[0] == 'bin' and x[1] == 'Add':
+        for a, c in ((x[2], x[3]), (x[3], x[2])):
+            if c[0] == 'const' and isinstance(c[2], int):
+                k = c[2]
+                x = a
+                break
+    if not (x[0] == 'call' and last_seg(x[1]) == 'get_dist_slot' and len(x[2]) == 1):
+        ctx.violation(key, f.loc(b), 'table size %s is not of the form get_dist_slot(e) + k: not decided (fail closed)' % expr_str(e)[:80])
+        return
+    arg = x[2][0]
+    while arg[0] == 'cast':
+        arg = arg[-1]
+    off = 0
+    if arg[0] == 'field' and isinstance(arg[1], tuple) and arg[1][0] == 'bin' and arg[1][1] in ('SubWithOverflow', 'AddWithOverflow') and str(arg[2]) == '0':
+        arg = ('bin', arg[1][1][:3], arg[1][2], arg[1][3])
+    if arg[0] == 'bin' and arg[1] in ('Sub', 'Add') and arg[3][0] == 'const' and isinstance(arg[3][2], int):
+        off = -arg[3][2] if arg[1] == 'Sub' else arg[3][2]
+        arg = arg[2]
+    is_dict = 'dict_size' in expr_str(arg)
+    if not is_dict:
+        ctx.violation(key, f.loc(b), 'get_dist_slot is applied to %s, not to the dictionary size: not decided (fail closed)' % expr_str(arg)[:60])
+        return
+    if off >= -1 and k >= 1:
+        ctx.ok(key, f.loc(b), 'size = get_dist_slot(dict_size%+d) + %d: covers the slot of the largest coded distance dict_size - 1' % (off, k))
+    else:
+        ctx.violation(key, f.loc(b), 'size = get_dist_slot(dict_size%+d) + %d: the slot of the largest coded distance (dict_size - 1) needs '
+                      'get_dist_slot(dict_size - 1) + 1 entries; this is one short whenever dict_size and dict_size - 1 fall into the same slot '
+                      '(every dictionary size that is not 2^n or 3*2^(n-1)): a match in the topmost slot indexes past the price table' % (off, k))
